@@ -166,3 +166,37 @@ func H_C16_rankRespectsTables() {
 	zzverif.Assert(increase && n > 40, "C16.action_results_increase_rank")
 	zzverif.Assert(retry, "C16.retry_keeps_state")
 }
+
+// H_C16_claimingStatesFinishDespiteTransientFailures: the states in which the node takes the on-chain
+// funds (the taker's ClaimSwap, the maker's ClaimSwapCsv, reached here by the event that leads into them)
+// are left for a terminal state even if one local call fails on the way (the claim broadcast, the
+// labelling, ...): the failure is retried, it is neither turned into an event the state rejects nor into a
+// second broadcast.  This is the "retries go on until they succeed" half of termination.
+// Bounds: one injected local failure per run, the next attempt succeeds.
+func H_C16_claimingStatesFinishDespiteTransientFailures() {
+	type node struct {
+		role int
+		st   StateType
+		g    int
+	}
+	nodes := []node{
+		{rInSender, State_WaitCsv, stCsvPassed}, {rOutReceiver, State_WaitCsv, stCsvPassed},
+		{rInSender, State_SwapInSender_AwaitClaimPayment, stCsvPassed}, {rOutReceiver, State_SwapOutReceiver_AwaitClaimInvoicePayment, stCsvPassed},
+		{rOutSender, State_SwapOutSender_ClaimSwap, stRestart}, {rInReceiver, State_SwapInReceiver_ClaimSwap, stRestart},
+		{rInSender, State_SwapInSender_ClaimSwapCsv, stRestart}, {rOutReceiver, State_SwapOutReceiver_ClaimSwapCsv, stRestart},
+	}
+	n := nodes[zzverif.Choice("node", len(nodes))]
+	sc := vBuild(n.role, n.st, zzverif.Bool("liquid"), 7)
+	w := sc.env.w
+	w.maxFaults = 1
+	w.maxPayAttempts = 1
+	w.narrow = sc.sm.Data
+	zzverif.Unwind(30)
+	sc.vApply(n.g)
+	post := sc.vCurrent()
+	zzverif.Reach("c16.claiming_step_done")
+	if w.spendAttempts > 0 && !w.storeFailed {
+		zzverif.Assert(vIsTerminal(post), "C16.claim_attempts_end_in_a_terminal_state")
+		zzverif.Assert(len(w.spends) == 1, "C16.exactly_one_claim_goes_out")
+	}
+}
